@@ -10,8 +10,10 @@ import (
 	"encoding/json"
 	"fmt"
 	"os"
+	"runtime"
 	"sort"
 	"strings"
+	"time"
 
 	"github.com/pkg/errors"
 	"github.com/spikeekips/mitum/base"
@@ -220,16 +222,16 @@ func (m *dbModel) candidates() []base.SuffrageCandidateStateValue {
 // ---- world with reopenable storage
 
 type dbEnv struct {
-	W        *chain.World
-	M        *dbModel
-	str      leveldbStorage.Storage // goleveldb storage under W.St; survives close/reopen
-	dir      string                 // directory of a file storage ("" for mem)
-	Cache    int                    // state cache size of the permanent database and of block-write databases
-	PermLast base.Height            // harness bookkeeping: last height merged into the permanent store
-	AllOps   []dbOpRef              // every operation ever put in a block (also of removed blocks)
-	seq      int
-	opener   func(st *leveldbstorage.Storage) (isaac.PermanentDatabase, *isaacdatabase.Center, error)
-	perms    func() // called after every reopen by C26 to re-attach its own stores
+	W              *chain.World
+	M              *dbModel
+	str            leveldbStorage.Storage // goleveldb storage under W.St; survives close/reopen
+	dir            string                 // directory of a file storage ("" for mem)
+	Cache          int                    // state cache size of the permanent database and of block-write databases
+	PermLast       base.Height            // harness bookkeeping: last height merged into the permanent store
+	AllOps         []dbOpRef              // every operation ever put in a block (also of removed blocks)
+	seq            int
+	opener         func(st *leveldbstorage.Storage) (isaac.PermanentDatabase, *isaacdatabase.Center, error)
+	baseGoroutines int
 }
 
 // dbOpen opens permanent database + center like launch.LoadDatabase does, with the state caches production turns on
@@ -327,6 +329,7 @@ func dbNewEnv(o dbEnvOpts) (*dbEnv, error) {
 	}
 
 	w.Perm, w.DB = perm, db
+	e.baseGoroutines = runtime.NumGoroutine()
 
 	if err := e.record([]base.Operation(nil), []string{"genesis"}); err != nil {
 		return nil, err
@@ -345,7 +348,25 @@ func (e *dbEnv) ldbOpts() *leveldbOpt.Options {
 	return &leveldbOpt.Options{WriteBuffer: 256 << 10}
 }
 
+// settle waits until the goroutines a read left behind are gone. Center.dig (ExistsInStateOperation/ExistsKnownOperation)
+// returns as soon as one temp database answers and leaves its other worker goroutines running; closing goleveldb under
+// such a straggler panics inside goleveldb (nil table-cache value), which would be the harness closing a store that is
+// not quiescent. The wait is bounded and only affects speed: when the count does not come back to the baseline (the
+// process legitimately owns more goroutines now) the baseline is raised.
+func (e *dbEnv) settle() {
+	for i := 0; i < 800; i++ {
+		if runtime.NumGoroutine() <= e.baseGoroutines {
+			return
+		}
+
+		time.Sleep(250 * time.Microsecond)
+	}
+
+	e.baseGoroutines = runtime.NumGoroutine()
+}
+
 func (e *dbEnv) Close() {
+	e.settle()
 	e.W.Close()
 	_ = e.W.St.Close()
 
@@ -356,6 +377,8 @@ func (e *dbEnv) Close() {
 
 // Reopen closes the storage and opens it again (same goleveldb storage object for mem, same directory for file).
 func (e *dbEnv) Reopen() error {
+	e.settle()
+
 	_ = e.W.DB.Close()
 
 	if err := e.W.St.Close(); err != nil {
@@ -382,6 +405,7 @@ func (e *dbEnv) Reopen() error {
 	}
 
 	e.W.St, e.W.Perm, e.W.DB = st, perm, db
+	e.baseGoroutines = runtime.NumGoroutine()
 
 	return nil
 }
